@@ -15,7 +15,7 @@ RULE = ('LLE: mixtures of 2-5 chemicals containing a partially miscible pair (wa
         'use_cache True and False, compared with a fresh solver on a fresh stream. SLE: glucose / tetradecanol / acetic acid in 1-3 solvents, T 250-450 K, given and computed solubility, pure solute above / below Tm. '
         'non-trivial = two non-empty liquid phases (LLE) / solute partly dissolved or a pure solute (SLE); distinct = hash of the case')
 MIN_NONTRIVIAL = {'quick': 150, 'thorough': 3000}
-ASSUMPTIONS = ['equal-activity bound (relative to the largest activity): 2e-2 for the Gibbs-minimising methods shgo and differential evolution (optimiser tolerances; observed up to 5.7e-3 for water/octane), 1e-3 otherwise', 'labels l/L are compared up to a swap when no top chemical is named']
+ASSUMPTIONS = ['equal-activity bound (relative to the largest activity): 1e-3; for the Gibbs-minimising methods shgo and differential evolution a deviation up to 1e-1 is accepted only when the Gibbs energy of the returned split (the solver objective, per mole of feed) is within the solver tolerance 1e-6 of the minimum obtained by polishing it', 'labels l/L are compared up to a swap when no top chemical is named']
 PAIRS = [('Water', 'Octane'), ('Water', 'Hexane'), ('Water', 'Toluene'), ('Water', 'Butanol'), ('Water', 'Octanol'), ('Water', 'EthylAcetate')]
 EXTRA = ('Ethanol', 'Methanol', 'Acetone', 'Propanol', 'AceticAcid')
 _th = {}
@@ -57,6 +57,24 @@ def numeric_failure(e):
     return not isinstance(e, (TypeError, AttributeError, KeyError, IndexError, NameError, UnboundLocalError))
 
 
+def trivial(r):
+    """both liquid rows hold material of one and the same composition (the 'trivial solution': a homogeneous liquid divided arbitrarily)"""
+    l, L = r['l'], r['L']
+    if not (l.sum() > 0 and L.sum() > 0): return False
+    return bool(np.abs(l / l.sum() - L / L.sum()).max() <= 1e-6)
+
+
+def gibbs_gap(th, ids, z, L, T):
+    """Gibbs energy (per mole of feed, the solver's own objective) of the returned split minus that of the nearest local minimum found by polishing it with Nelder-Mead."""
+    from scipy.optimize import minimize
+    from thermosteam.equilibrium.lle import lle_objective_function
+    G = th.Gamma(th.chemicals)
+    f = lambda x: float(lle_objective_function(np.clip(np.asarray(x, float), 0, z).copy(), z, T, G.f, G.args))
+    g0 = f(L)
+    res = minimize(f, L, method='Nelder-Mead', bounds=[(0, zi) for zi in z], options=dict(xatol=1e-12, fatol=1e-14, maxiter=20000, maxfev=40000))
+    return g0 - float(res.fun)
+
+
 def rows(s):
     return {p: s.imol[p].to_array().copy() for p in s.phases}
 
@@ -91,15 +109,25 @@ def run_lle(case, rec):
         al = xl * G(xl.copy(), T); aL = xL * G(xL.copy(), T)
         m = (xl >= 1e-8) & (xL >= 1e-8)
         dev = float(np.abs(al - aL)[m].max() / max(al[m].max(), aL[m].max())) if m.any() else 0.0
-        bound = {'differential evolution': 2e-2, 'shgo': 2e-2}.get(method, 1e-3)
+        gibbs = method in ('shgo', 'differential evolution')
+        bound = 1e-3
         sfx = ''
-        if dev > bound and method != 'pseudo equilibrium':
+        if dev > bound and gibbs:
             # which components deviate, and are they sitting at the optimiser's starting midpoint (half in each liquid)?
             rel = np.abs(al - aL) / max(al[m].max(), aL[m].max())
             bad = [k_ for k_ in range(len(ids)) if m[k_] and rel[k_] > bound]
             frac = L / (l + L + 1e-300)
             if bad and all(abs(frac[k_] - 0.5) <= 1e-6 for k_ in bad): sfx = '/component-left-at-midpoint'
-        rec.check(dev <= bound, 'equal-activity', mtag + sfx, f'lle({method}) at T={T}: activities differ between the liquids by {dev:.3g} of the largest activity (l: {al.tolist()}, L: {aL.tolist()}; ids={ids})', residual=dev)
+            elif dev <= 1e-1:
+                # the Gibbs minimisers stop on the objective (f_tol / tol = 1e-6), not on the activities: a split whose Gibbs energy is within that
+                # tolerance of the polished minimum is the declared resolution of the method (trace components barely move the objective)
+                gap = gibbs_gap(th, ids, flows / F, L / F, T)
+                rec.hit('gibbs-gap-evaluated')
+                if gap <= 1e-6:
+                    rec.hit('within-optimiser-resolution'); rec.ok('equal-activity:gibbs-gap', residual=max(gap, 0.0))
+                    bound = 1e-1
+                else: sfx = f'/gibbs-gap>1e-6'
+        rec.check(dev <= bound, 'equal-activity', mtag + sfx, f'lle({method}) at T={T}: activities differ between the liquids by {dev:.3g} of the largest activity (l: {al.tolist()}, L: {aL.tolist()}; ids={ids})', residual=dev if bound == 1e-3 else None)
         # top chemical has a mass fraction in L at least as high as in l
         if top is not None:
             MW = th.chemicals.MW; j = ids.index(top)
@@ -115,7 +143,8 @@ def run_lle(case, rec):
             ok = np.allclose(rs['l'], k * l, rtol=0, atol=tol) and np.allclose(rs['L'], k * L, rtol=0, atol=tol)
             if not ok and top is None:
                 ok = np.allclose(rs['L'], k * l, rtol=0, atol=tol) and np.allclose(rs['l'], k * L, rtol=0, atol=tol)
-            rec.check(ok, 'scale', mtag, f'lle({method}) of {k}*feed is not {k} times the split of the feed: l {rs["l"].tolist()} vs {(k * l).tolist()}')
+            sfx = '/trivial-solution' if (not ok and (trivial(rs) or trivial({'l': l, 'L': L}))) else ''
+            rec.check(ok, 'scale', mtag + sfx, f'lle({method}) of {k}*feed is not {k} times the split of the feed: l {rs["l"].tolist()} vs {(k * l).tolist()}')
         except Exception as e:
             if numeric_failure(e): rec.refuse(type(e).__name__)
             else: rec.exception('scale', e, what=f'lle of the scaled feed raised {type(e).__name__}: {str(e)[:120]}')
@@ -149,7 +178,8 @@ def run_lle(case, rec):
         ctag = 'use_cache' if case['use_cache'] else 'no-cache'
         rec.hit('history:' + ctag)
         if decreased: rec.hit('history:T-decrease')
-        rec.check(ok, 'history', f'{mtag}/{ctag}' + ('/T-decrease' if decreased else ''),
+        tsfx = '/trivial-solution' if (not ok and method != 'pseudo equilibrium' and (trivial(rh) or trivial({'l': l, 'L': L}))) else ''
+        rec.check(ok, 'history', f'{mtag}/{ctag}' + ('/T-decrease' if decreased else '') + tsfx,
                   f'lle({method}, use_cache={case["use_cache"]}) at T={T} after {len(case["hist"])} earlier calls (last at T={Tprev}) differs from a fresh solver by {dev:.3g} of the feed: l {rh["l"].tolist()} vs fresh {l.tolist()}',
                   residual=dev)
 
